@@ -20,21 +20,33 @@ SPEC = Spec(
                 files={"zz_verif_c06_graph_test.go": "c06/graph_test.go"},
                 test="TestVerifC06Graph", driver="drv_c06", n={"quick": 2000, "thorough": 30000}),
     ],
-    rule="exporter: exporters built with the real exporter helper (logs/traces/metrics) from random option lists (own capability "
-         "declaration none/false/true, batching through sending_queue::batch / legacy batcher / none, neutral options, random "
-         "order): advertised MutatesData compared with exporterCap. router: connector.New{Logs,Metrics,Traces}Router(...).Consumer(selected pipelines...) on random pipeline sets and selections "
-         "(half of them a single pipeline), read-only/mutable input, plus every capability vector <= 3 x every single selection; "
-         "compared with the same fan-out model. fanout (one consumer may cancel the request context while it is served): random capability vectors (1-7 consumers), read-only/mutable input, failure patterns, synchronous and asynchronous "
-         "writers, one undeclared writer, on the real fan-out of all four signals, plus EXHAUSTIVE capability vectors of length <= 5 "
-         "(quick) / <= 8 (thorough) x input mode x undeclared-writer position; non-trivial = mixed mutating/non-mutating vector. "
-         "graph: random two-level topologies built by the real graph.Build (1-4 pipelines from one receiver, optional same-signal "
-         "connector feeding 1-2 further pipelines, processors/exporters/connectors with random declared capability); "
+    rule="fanout (all four signals; one consumer may cancel the request context while it is served): random capability vectors (1-7 "
+         "consumers), read-only/mutable input, failure patterns, synchronous and asynchronous writers, one undeclared writer, on RANDOM "
+         "payloads (1-3 resources, nested attribute values, several item kinds) with every write at one of 6 mutation sites (resource / "
+         "scope attribute, map nested in an item attribute, scalar field of the last item, appended resource, primitive or nested slice "
+         "of item 0); a mutating consumer's object must equal the sent bytes plus its OWN writes replayed on a private copy; plus "
+         "EXHAUSTIVE capability vectors of length <= 5 (quick) / <= 8 (thorough) x input mode x undeclared-writer position; "
+         "non-trivial = mixed mutating/non-mutating vector. router / xrouter: connector.New{Logs,Metrics,Traces}Router and "
+         "xconnector.NewProfilesRouter (...).Consumer(selected pipelines...) on random pipeline sets, selections (half of them a single "
+         "pipeline) and failing consumers, capability read from the returned consumer, plus every capability vector <= 3 x every single "
+         "selection; compared with the same fan-out model. exporter: exporters built with the real exporter helper from random option "
+         "lists (own declaration none/false/true, sending_queue::batch, legacy batcher on/off, disabled queue with a batch section, both, "
+         "neutral options, random order): advertised MutatesData vs exporterCap. graph: random DAGs built by the real graph.Build for a "
+         "random signal of the four (1-6 pipelines, 1-2 receivers, pipelines with several sources, connector chains, connectors fed by "
+         "several pipelines, exporters shared between pipelines, a probe processor at every pipeline entry): (1) advertised capability "
+         "of every pipeline vs pipelineCap/aggregateCap, (2) for EVERY fan-out call (source -> pipelines, pipeline -> exporters and "
+         "connectors) the order-independent summary (read-only flag at each consumer, number of mutating consumers holding the "
+         "original) vs the model (C06_seen_ro, C06_origMut, C06_summary_perm) + identity oracles, (3) trail oracles per exporter call. "
          "non-trivial = more than one pipeline and mixed capabilities. distinct = distinct op sequences.",
     trusted_base=[
         "Lean 4.33.0 kernel; axioms per theorem listed under axioms_per_theorem",
-        "hand-written model of NewLogs/ConsumeLogs/Capabilities (one model for the four signal files), pipeline capability and aggregateCap; "
-        "tied by exact differential on every run (object identity read by reflection on the pdata wrapper's pointer field)",
-        "pdata CopyTo produces an independent equal object and a write to a read-only payload panics without effect (property C07)",
+        "hand-written model of NewLogs/ConsumeLogs/Capabilities (one model for the four signal files), pipeline capability, aggregateCap, "
+        "exporterCap; tied by exact differential on every run (object identity read by reflection on the pdata wrapper's pointer field)",
+        "payload content is ONE abstract number in the model: 'a clone is an independent equal object' and 'a write to a read-only "
+        "payload panics without effect' are property C07's theorems, used here as the definition of Heap.write / call and OBSERVED by the "
+        "fan-out harness on random payloads at 6 kinds of mutation site (not proved here)",
+        "the graph hands consumers to a fan-out in graph-iteration order: only order-independent facts are compared there "
+        "(C06_fanCap_perm, C06_summary_perm)",
         "consumers are called sequentially by the fan-out (as the code does); asynchronous work happens after the fan-out returned",
     ],
     assumptions=[
